@@ -8,7 +8,7 @@ def sh(cmd, cwd=None, timeout=1800):
     p = subprocess.run(cmd, shell=True, cwd=cwd, env=ENV, stdout=subprocess.PIPE, stderr=subprocess.STDOUT, text=True, timeout=timeout)
     return p.returncode, p.stdout
 def main():
-    cands = sorted(glob.glob('/tmp/wt/C*.out/[cd]'))
+    cands = sorted(glob.glob('/tmp/wt/C*.out/[a-z]'))
     only = sys.argv[1:]
     out = {}
     for d in cands:
